@@ -233,6 +233,8 @@ def items_in(src, lo, hi):
                 if s == 'macro_rules':
                     name = src.s(i + 2)
             ob = find_block_open(src, i + 1)
+            if kind in ('const', 'static', 'type'):
+                ob = None   # `const X: T = T { .. };` ends at the ';'
             if kind in ('struct',) and ob is not None:
                 # tuple struct `struct X(..);` has no brace before ';' -> find_block_open returns None
                 pass
